@@ -96,8 +96,8 @@ impl Property for C01 {
     }
     fn runs(&self, tier: Tier) -> u64 {
         match tier {
-            Tier::Quick => 60_000,
-            Tier::Thorough => 4_000_000,
+            Tier::Quick => 400_000,
+            Tier::Thorough => 10_000_000,
         }
     }
     fn generate(&self, seed: u64, index: u64, _tier: Tier) -> Trace {
